@@ -844,15 +844,23 @@ impl JobServerHandle {
             // at one second anyway.
             backoff = cmp::min(backoff * 2, Duration::from_secs(1));
             {
-                let has_token = {
+                let (has_token, in_debt) = {
                     let state = self.state.borrow();
                     let has_token = state.has_token();
                     if !has_token {
                         debug_assert_eq!(state.my_tokens, 0);
                     }
-                    has_token
+                    (has_token, state.cheats > 0)
                 };
-                if !has_token {
+                // A cheat of ours may still be unpaid while we hold no token: the
+                // cheated token went to a job whose exit was settled by a cheat byte
+                // of its own (eaten, no token re-created), after that job's redo had
+                // handed the cheated token on as a real one.  There is then one real
+                // token too many in circulation and we owe it: wait for a real token
+                // (it pays the debt when we exit) instead of cheating a second time.
+                // (A second cheat tripped `cheats <= my_tokens` at exit:
+                // "mytokens=1, cheats=2".)
+                if !has_token && !in_debt {
                     let n = cheat_func()?;
                     // TODO(maybe): Switch direct environment variable access with Env field.
                     debug_jobserver!(
